@@ -8,7 +8,7 @@ import re
 from hypothesis import strategies as st
 
 from .. import wire
-from ..driver import Hang, World, quote
+from ..driver import Hang, World, quote, tagged_message
 from ..gen import c16_msgs as MG
 from ..run import CaseResult, Violation, open_ids
 
@@ -361,6 +361,22 @@ def execute(trace) -> CaseResult:
             r = await s3.done()
             await s3.cmd(b"NOOP")
             labels.add("idle-misuse")
+        # response codes with arguments: `[COPYUID uidvalidity uid-set uid-set]`, `[APPENDUID uidvalidity uid]`
+        # (RFC 4315; a uid-set is never empty - seen as `[COPYUID 1  ]` for a UID COPY that names no message)
+        if s3.alive:
+            mark = len(s3.writer.buf)
+            m1 = tagged_message("c07code")
+            for line in (b"SELECT inbox", b"UID COPY 4294967290 inbox", b"UID MOVE 4294967290 inbox", b"COPY 1 inbox",
+                         b"APPEND inbox {%d}\r\n%s" % (len(m1), m1)):
+                if s3.alive:
+                    await s3.cmd(line)
+            out = bytes(s3.writer.buf[mark:])
+            for mm in re.finditer(rb"\[(COPYUID|APPENDUID)([^\]\r\n]*)\]", out):
+                body = mm.group(2)
+                pat = rb" [1-9]\d* [0-9:,*]+ [0-9:,*]+" if mm.group(1) == b"COPYUID" else rb" [1-9]\d* [1-9]\d*"
+                if not re.fullmatch(pat, body):
+                    v("C07.respcode.uidplus", f"response code [{mm.group(1).decode()}{body.decode('latin-1')}] is not RFC 4315 syntax", mm.group(1).decode())
+            labels.add("uidplus-codes")
         strict(s3, "errors: refusals and IDLE misuse")
 
     try:
